@@ -181,8 +181,10 @@ class CIMNamespaceProvider(InstanceWriteProvider):
         # Allows namespace to exist but fails if and instance of
         # CIMInstanceName exists with this name
 
+        ns_added = False
         if new_namespace not in self.cimrepository.namespaces:
             self.add_namespace(new_namespace)
+            ns_added = True
         else:
             # If instance exists of CIM_Namespace for this new_instance.name
             # generate exception. This accounts for possible differences
@@ -202,8 +204,15 @@ class CIMNamespaceProvider(InstanceWriteProvider):
 
         # Create the CIM instance for the new namespace in the CIM repository,
         # by delegating to the default provider method.
-        return super().CreateInstance(
-            namespace, new_instance)
+        try:
+            return super().CreateInstance(
+                namespace, new_instance)
+        except Exception:
+            # The CIM_Namespace instance could not be created: Do not leave
+            # the namespace behind that was just added for it.
+            if ns_added:
+                self.remove_namespace(new_namespace)
+            raise
 
     def ModifyInstance(self, modified_instance, IncludeQualifiers=None):
         """
